@@ -5,7 +5,7 @@ random.Random(seed); a case file replays exactly.
 The Python port of the definition checks below (`py_check`) is used ONLY to steer generation
 towards mostly-valid grammars; it is never used as an oracle (the Lean model is).
 """
-import random, sys
+import os, random, re, sys
 
 NIL = 2 ** 31 - 1
 
@@ -788,6 +788,47 @@ def mutate_text(r, text):
     return bytes(x for x in b if x != 0)
 
 
+_YACC = None
+def yacc_sentence(r):
+    """a random sentence (as description text) of the yacc grammar CURRENTLY in /repo/src/sgramm.y,
+    40 % of them with one token deleted / duplicated / swapped: the search stream for inputs on
+    which the hand-written description parser model and the generated parser disagree"""
+    global _YACC
+    if _YACC is None:
+        import extract_consts, build
+        y = open(os.path.join(build.REPO, 'src', 'sgramm.y')).read()
+        prods = extract_consts.yacc_productions(y)
+        d = {}
+        for l, rhs in prods: d.setdefault(l, []).append(rhs)
+        m = re.search(r'^%start\s+(\w+)', y, re.M)
+        _YACC = (d, m.group(1) if m else (prods[0][0] if prods else 'file'))
+    d, start = _YACC
+    out = []
+    def expand(sym, depth):
+        if len(out) > 60: return
+        if sym not in d: out.append(sym); return
+        alts = d[sym]
+        if depth > 6:
+            alts = sorted(alts, key=lambda a: (sum(1 for x in a if x in d), len(a)))[:max(1, len(alts) // 2)]
+        for x in r.choice(alts): expand(x, depth + 1)
+    expand(start, 0)
+    if out and r.random() < 0.4:
+        k = r.randrange(len(out)); m = r.random()
+        if m < 0.4: del out[k]
+        elif m < 0.7: out.insert(k, out[k])
+        elif len(out) > 1:
+            j = r.randrange(len(out)); out[k], out[j] = out[j], out[k]
+    def lexeme(t):
+        if t == 'IDENT': return r.choice(['a', 'b', 'x1', 'S', 'e_', 'error'])
+        if t == 'SEM_IDENT': return r.choice(['S', 'a', 'n2']) + r.choice([':', ' :', '\n:'])
+        if t == 'CHAR': return "'%s'" % r.choice('abc+*(')
+        if t == 'NUMBER': return str(r.choice([0, 1, 2, 3, 7, 300]))
+        if t == 'TERM': return 'TERM'
+        if len(t) >= 3 and t[0] == "'" and t[-1] == "'": return t[1:-1]
+        return t
+    return ' '.join(lexeme(t) for t in out).encode('latin1', 'replace')
+
+
 def gen_descr_cases(seed, count):
     r = random.Random(seed)
     cases = []
@@ -801,8 +842,10 @@ def gen_descr_cases(seed, count):
         mode = r.random()
         if mode < 0.6:
             data = text.encode('latin1')
-        elif mode < 0.9:
+        elif mode < 0.8:
             data = mutate_text(r, text)
+        elif mode < 0.9:
+            data = yacc_sentence(r)
         else:
             data = bytes(r.choice(b"TERM ;:|#'ab()-=/*\n 019\x80") for _ in range(r.randint(0, 40)))
         c.append('text 0 %s' % data.hex())
